@@ -15,11 +15,18 @@
    Cryptography and the other library calls that are not modelled byte for byte are the
    fields of [params]; the harness records their answers per case (Run/C11.v, Run/C12.v).
 
-   Outside the modelled domain (the model answers Err "unmodelled", observation (9)):
-   partial and indeterminate packet lengths, version-3 keys and signatures, packet types the
-   key reader does not expect (1,3,4,8,9,11,17,18), and key or signature packets whose body is
-   longer than the material parsed from it (packet.Read leaves those octets in a bufio.Reader
-   whose fill level depends on the chunking of the armor reader). *)
+   The packet stream is modelled octet for octet: old and new packet headers, one-, two-,
+   four- and five-octet lengths, partial body lengths and the indeterminate length; version-3
+   keys and signatures, the packet types of OpenPGP messages (1, 3, 4, 8, 9, 11, 18) and user
+   attributes (17) inside a key block; packets whose body is longer than the material parsed
+   from it.  packet.Read consumes every packet to the end of its body (repaired: F40) except
+   those it hands out as a stream (8, 9, 11, 18), behind which the NEXT HEADER IS READ FROM THE
+   BODY of the packet - ReadEntity never drains them.
+
+   Outside the modelled domain (the model answers Err "unmodelled", observation (9)): a
+   compressed-data packet (8) with algorithm 2 and a well-formed zlib header: zlib.NewReader
+   reads that header through a bufio.Reader of its own, and how many octets of the body this
+   swallows depends on the chunking of the armor reader. *)
 From WI Require Import Lib.Base Lib.Info Lib.Time gen.PgpTables Model.PgpKey.
 Open Scope N_scope.
 
@@ -36,10 +43,35 @@ Definition miss : string := "oracle miss"%string.
 Definition unmodelled : string := "unmodelled"%string.
 
 (* ---------- packet framing (packet.go:41-251) ---------- *)
-Inductive hdr : Type :=
-| HEof | HErr | HUnmod
-| HPkt (tag : N) (len : N) (rest : bytes).
+(* what readHeader hands to the packet parser *)
+Inductive breader : Type :=
+| BSpan (n : N)          (* spanReader{r, n}: n octets, io.ErrUnexpectedEOF when the stream ends before *)
+| BPartial (rem : N)     (* partialLengthReader: rem octets, then another length *)
+| BToEOF.                (* old format, length type 3: the reader itself - everything up to the end of the stream *)
 
+Inductive hdr : Type :=
+| HEof | HErr
+| HPkt (tag : N) (br : breader) (rest : bytes).
+
+(* readLength :41 - (length, isPartial) and the rest; None = io.ErrUnexpectedEOF *)
+Definition read_length (r : bytes) : option (N * bool * bytes) :=
+  match r with
+  | [] => None
+  | l0 :: r1 =>
+      if l0 <? 192 then Some (l0, false, r1)
+      else if l0 <? 224 then
+        match r1 with
+        | [] => None
+        | l1 :: r2 => Some ((l0 - 192) * 256 + l1 + 192, false, r2)
+        end
+      else if l0 <? 255 then Some (2 ^ (N.land l0 31), true, r1)
+      else match read_n 4 r1 with
+           | None => None
+           | Some (lb, rest) => Some (be_to_N lb, false, rest)
+           end
+  end.
+
+(* readHeader :202 *)
 Definition read_header (l : bytes) : hdr :=
   match l with
   | [] => HEof
@@ -49,29 +81,82 @@ Definition read_header (l : bytes) : hdr :=
         (* old format *)
         let tag := N.land b 63 / 4 in
         let lt := N.land b 3 in
-        if lt =? 3 then HUnmod                                (* indeterminate length *)
+        if lt =? 3 then HPkt tag BToEOF r                     (* indeterminate length *)
         else match read_n (2 ^ lt) r with
              | None => HErr
-             | Some (lb, rest) => HPkt tag (be_to_N lb) rest
+             | Some (lb, rest) => HPkt tag (BSpan (be_to_N lb)) rest
              end
       else
-        (* new format, readLength *)
-        let tag := N.land b 63 in
-        match r with
-        | [] => HErr
-        | l0 :: r1 =>
-            if l0 <? 192 then HPkt tag l0 r1
-            else if l0 <? 224 then
-              match r1 with
-              | [] => HErr
-              | l1 :: r2 => HPkt tag ((l0 - 192) * 256 + l1 + 192) r2
-              end
-            else if l0 <? 255 then HUnmod                     (* partial length *)
-            else match read_n 4 r1 with
-                 | None => HErr
-                 | Some (lb, rest) => HPkt tag (be_to_N lb) rest
-                 end
+        (* new format *)
+        match read_length r with
+        | None => HErr
+        | Some (len, partial, rest) => HPkt (N.land b 63) (if partial then BPartial len else BSpan len) rest
         end
+  end.
+
+(* everything a partialLengthReader :76 delivers when it is read to its end: the octets, whether the
+   end of the packet was reached (false: the stream ended inside a chunk or inside a length), the
+   stream behind the packet.  Every round consumes at least the octet of a length. *)
+Fixpoint partial_body (fuel : nat) (rem : N) (r : bytes) : bytes * bool * bytes :=
+  match fuel with
+  | O => ([], false, [])
+  | S f =>
+      match read_n rem r with
+      | None => (r, false, [])
+      | Some (chunk, r1) =>
+          match read_length r1 with
+          | None => (chunk, false, [])
+          | Some (len, true, r2) =>
+              let '(b, ok, r3) := partial_body f len r2 in (chunk ++ b, ok, r3)
+          | Some (len, false, r2) =>
+              match read_n len r2 with
+              | None => (chunk ++ r2, false, [])
+              | Some (last, r3) => (chunk ++ last, true, r3)
+              end
+          end
+      end
+  end.
+
+(* the body of a packet read to its end: (octets, complete, the stream behind the packet) *)
+Definition read_body (br : breader) (r : bytes) : bytes * bool * bytes :=
+  match br with
+  | BSpan n =>
+      match read_n n r with
+      | Some (b, r1) => (b, true, r1)
+      | None => (r, false, [])
+      end
+  | BToEOF => (r, true, [])
+  | BPartial rem => partial_body (S (length r)) rem r
+  end.
+
+(* the stream after k octets of the body were read THROUGH the packet's reader and the reader was
+   dropped (packets handed out as a stream).  A partialLengthReader reads the next length only when
+   an octet behind it is asked for. *)
+Fixpoint partial_skip (fuel : nat) (k rem : N) (more : bool) (r : bytes) : option bytes :=
+  if k =? 0 then Some r
+  else
+    match fuel with
+    | O => None
+    | S f =>
+        if rem =? 0 then
+          if more then
+            match read_length r with
+            | None => None
+            | Some (len, p, r1) => partial_skip f k len p r1
+            end
+          else None
+        else
+          let t := N.min k rem in
+          match read_n t r with
+          | None => None
+          | Some (_, r1) => partial_skip f (k - t) (rem - t) more r1
+          end
+    end.
+Definition skip_content (br : breader) (k : N) (r : bytes) : option bytes :=
+  match br with
+  | BSpan n => if k <=? n then (match read_n k r with Some (_, r1) => Some r1 | None => None end) else None
+  | BToEOF => match read_n k r with Some (_, r1) => Some r1 | None => None end
+  | BPartial rem => partial_skip (S (length r)) k rem true r
   end.
 
 (* ---------- secret-key packets (private_key.go:87-296, s2k.go:162) ---------- *)
@@ -92,39 +177,175 @@ Definition parse_private (c : cfg) (P : params) (k : pubkey) (l : bytes) : resul
     (if a =? 18 then let* (_, _) := mpi_read l in Ok tt else Err "private key type")
   else Panic "impossible".
 
-(* [short]: the packet's declared length exceeds the octets that are left (io.ReadAll then fails) *)
-Definition parse_secret_tail (c : cfg) (P : params) (k : pubkey) (short : bool) (l : bytes) : result unit :=
+(* s2k.Parse s2k.go:162.  It reads with io.ReadFull, not with the package's readFull: when the body
+   of the packet ends exactly before the specifier (or before its salt) the error is io.EOF, which
+   Reader.Next takes for the end of the stream; when the STREAM ends there it is io.ErrUnexpectedEOF. *)
+Definition eof : string := "EOF"%string.
+Inductive s2kres : Type := S2Ok (rest : bytes) | S2Eof | S2Err.
+Definition s2k_parse (P : params) (complete : bool) (l : bytes) : s2kres :=
+  match l with
+  | [] => if complete then S2Eof else S2Err
+  | [_] => S2Err
+  | t :: h :: r1 =>
+      if negb (hash_id_ok h) then S2Err
+      else if negb (p_avail P h) then S2Err
+      else if t =? 0 then S2Ok r1
+      else if (t =? 1) || (t =? 3) then
+        match r1 with
+        | [] => if complete then S2Eof else S2Err
+        | _ => match read_n (if t =? 1 then 8 else 9) r1 with Some (_, x) => S2Ok x | None => S2Err end
+        end
+      else S2Err
+  end.
+
+(* [complete]: the octets the packet's length announces are all there (io.ReadAll fails otherwise) *)
+Definition parse_secret_tail (c : cfg) (P : params) (k : pubkey) (complete : bool) (l : bytes) : result unit :=
   match l with
   | [] => Err "unexpected EOF"
   | s2k :: r =>
       if s2k =? 0 then
-        if short then Err "unexpected EOF" else parse_private c P k r
+        if complete then parse_private c P k r else Err "unexpected EOF"
       else if (s2k =? 254) || (s2k =? 255) then
         match r with
-        | cipher :: t :: h :: r1 =>
-            if negb (hash_id_ok h) then Err "hash for S2K function"
-            else if negb (p_avail P h) then Err "hash not available"
-            else
-              let* r2 := (if t =? 0 then Ok r1
-                          else if t =? 1 then match read_n 8 r1 with Some (_, x) => Ok x | None => Err "unexpected EOF" end
-                          else if t =? 3 then match read_n 9 r1 with Some (_, x) => Ok x | None => Err "unexpected EOF" end
-                          else Err "S2K function") in
-              let bsz := cipher_block_size cipher in
-              if bsz =? 0 then Err "unsupported cipher in private key"
-              else match read_n bsz r2 with
-                   | None => Err "unexpected EOF"
-                   | Some _ => if short then Err "unexpected EOF" else Ok tt
-                   end
-        | _ => Err "unexpected EOF"
+        | [] => Err "unexpected EOF"
+        | cipher :: r1 =>
+            match s2k_parse P complete r1 with
+            | S2Eof => Err eof
+            | S2Err => Err "S2K"
+            | S2Ok r2 =>
+                let bsz := cipher_block_size cipher in
+                if bsz =? 0 then Err "unsupported cipher in private key"
+                else match read_n bsz r2 with
+                     | None => Err "unexpected EOF"
+                     | Some _ => if complete then Ok tt else Err "unexpected EOF"
+                     end
+            end
         end
       else Err "deprecated s2k function in private key"
+  end.
+
+(* ---------- the other packets of RFC 4880 (encrypted_key.go, symmetric_key_encrypted.go,
+   one_pass_signature.go, userattribute.go + opaque.go, public_key_v3.go, signature_v3.go) ----------
+   ReadEntity ignores them; what matters is whether packet.Read accepts them. *)
+Definition mpi_ok (l : bytes) : option bytes :=
+  match mpi_read l with Ok (_, r) => Some r | _ => None end.
+
+(* EncryptedKey.parse encrypted_key.go:32 (it ends with consumeAll) *)
+Definition parse_enckey (body : bytes) : bool :=
+  match read_n 10 body with
+  | None => false
+  | Some (h, r) =>
+      if negb (nth 0 h 0 =? 3) then false
+      else
+        let a := nth 9 h 0 in
+        if (a =? 1) || (a =? 2) then (match mpi_ok r with Some _ => true | None => false end)
+        else if a =? 16 then
+          (match mpi_ok r with
+           | Some r1 => (match mpi_ok r1 with Some _ => true | None => false end)
+           | None => false
+           end)
+        else true
+  end.
+
+(* OnePassSignature.parse one_pass_signature.go:29: a wrong version is reported only after the hash id was looked up *)
+Definition parse_onepass (body : bytes) : bool :=
+  match read_n 13 body with
+  | None => false
+  | Some (h, _) => (nth 0 h 0 =? 3) && hash_id_ok (nth 2 h 0)
+  end.
+
+(* OpaqueSubpackets opaque.go:92 *)
+Fixpoint opaque_subpackets (fuel : nat) (l : bytes) : bool :=
+  match l with
+  | [] => true
+  | b0 :: r0 =>
+      match fuel with
+      | O => false
+      | S f =>
+          let hdr : option (N * bytes) :=
+            if b0 <? 192 then Some (b0, r0)
+            else if b0 <? 255 then
+              match r0 with
+              | b1 :: r1 => Some ((b0 - 192) * 256 + b1 + 192, r1)
+              | [] => None
+              end
+            else
+              match r0 with
+              | b1 :: b2 :: b3 :: b4 :: r4 => Some (((b1 * 256 + b2) * 256 + b3) * 256 + b4, r4)
+              | _ => None
+              end in
+          match hdr with
+          | None => false
+          | Some (len, sub) =>
+              if len =? 0 then false
+              else match read_n len sub with
+                   | None => false
+                   | Some (_, rest) => opaque_subpackets f rest
+                   end
+          end
+      end
+  end.
+
+(* PublicKeyV3.parse public_key_v3.go:53 *)
+Definition parse_key_v3 (body : bytes) : bool :=
+  match read_n 8 body with
+  | None => false
+  | Some (h, r) =>
+      let v := nth 0 h 0 in
+      let a := nth 7 h 0 in
+      if (v <? 2) || (3 <? v) then false
+      else if negb ((a =? 1) || (a =? 2) || (a =? 3)) then false
+      else match mpi_read r with
+           | Ok (n, r1) =>
+               match mpi_read r1 with
+               | Ok (e, _) => (8 <=? lenN (m_bytes n)) && (lenN (m_bytes e) <=? 3)
+               | _ => false
+               end
+           | _ => false
+           end
+  end.
+
+(* SignatureV3.parse signature_v3.go:34 *)
+Definition parse_sig_v3 (body : bytes) : bool :=
+  match body with
+  | v :: five :: r =>
+      if (v <? 2) || (3 <? v) then false
+      else if negb (five =? 5) then false
+      else match read_n 13 r with                       (* type, creation time; key id *)
+           | None => false
+           | Some (_, r2) =>
+               match r2 with
+               | a :: h :: r3 =>
+                   if negb ((a =? 1) || (a =? 3) || (a =? 17)) then false
+                   else if negb (hash_id_ok h) then false
+                   else match read_n 2 r3 with
+                        | None => false
+                        | Some (_, r4) =>
+                            match mpi_ok r4 with
+                            | None => false
+                            | Some r5 => if a =? 17 then (match mpi_ok r5 with Some _ => true | None => false end) else true
+                            end
+                        end
+               | _ => false
+               end
+           end
+  | _ => false
+  end.
+
+(* zlib.NewReader: RFC 1950 CMF / FLG *)
+Definition zlib_header_ok (l : bytes) : bool :=
+  match l with
+  | h0 :: h1 :: _ => (N.land h0 15 =? 8) && (h0 / 16 <=? 7) && ((h0 * 256 + h1) mod 31 =? 0)
+  | _ => false
   end.
 
 (* ---------- packets and the reader (packet.go:356, reader.go) ---------- *)
 Inductive packet : Type :=
 | PKey (sub secret : bool) (k : pubkey)
 | PUid (id : bytes)
-| PSig (s : sigp).
+| PSig (s : sigp)
+| POther.     (* any other packet that packet.Read returned: ReadEntity ignores it, and it ends the
+                 run of signatures behind a user ID or a subkey *)
 
 Inductive event : Type :=
 | EvP (p : packet)
@@ -134,32 +355,34 @@ Inductive event : Type :=
 | EvUnmod.       (* outside the modelled domain *)
 
 Inductive rdres : Type :=
-| RP (p : packet) | RSkip | REof | RErr | RPanic | RMiss | RUnmod.
-
-Definition unmodelled_tag (t : N) : bool :=
-  (t =? 1) || (t =? 3) || (t =? 4) || (t =? 8) || (t =? 9) || (t =? 11) || (t =? 17) || (t =? 18).
+| RP (p : packet)
+| RStream (k : N)   (* a packet whose body is handed out as a stream was accepted after k octets of its body *)
+| RSkip | REof | RErr | RPanic | RMiss | RUnmod.
 
 Definition rd_of_err (e : string) : rdres :=
-  if String.eqb e miss then RMiss else RErr.
+  if String.eqb e miss then RMiss else if String.eqb e eof then REof else RErr.
 
-Definition read_packet (c : cfg) (P : params) (tag : N) (body : bytes) (short : bool) : rdres :=
+(* packet.Read :356 consumes a parsed packet to its end (consumeAll) and fails when the stream ends before *)
+Definition fin (complete : bool) (p : packet) : rdres := if complete then RP p else RErr.
+
+Definition read_packet (c : cfg) (P : params) (tag : N) (body : bytes) (complete : bool) : rdres :=
   if (tag =? 2) || (tag =? 6) || (tag =? 14) then
-    (* peekVersion: an empty body is io.EOF for the Reader when the declared length is 0 *)
+    (* peekVersion: an empty body is io.EOF for the Reader when the packet really is empty *)
     match body with
-    | [] => if short then RErr else REof
+    | [] => if complete then REof else RErr
     | v :: _ =>
-        if v <? 4 then RUnmod
+        if v <? 4 then
+          (if tag =? 2 then (if parse_sig_v3 body then fin complete POther else RErr)
+           else (if parse_key_v3 body then fin complete POther else RErr))
         else if tag =? 2 then
           match parse_sig body with
-          | Ok (s, []) => RP (PSig s)
-          | Ok (_, _ :: _) => RUnmod
+          | Ok (s, _) => fin complete (PSig s)
           | Err e => rd_of_err e
           | Panic _ => RPanic
           end
         else
           match parse_public_key c (p_ecok P) body with
-          | Ok (k, []) => RP (PKey (tag =? 14) false k)
-          | Ok (_, _ :: _) => RUnmod
+          | Ok (k, _) => fin complete (PKey (tag =? 14) false k)
           | Err e => rd_of_err e
           | Panic _ => RPanic
           end
@@ -167,7 +390,7 @@ Definition read_packet (c : cfg) (P : params) (tag : N) (body : bytes) (short : 
   else if (tag =? 5) || (tag =? 7) then
     match parse_public_key c (p_ecok P) body with
     | Ok (k, tail) =>
-        match parse_secret_tail c P k short tail with
+        match parse_secret_tail c P k complete tail with
         | Ok _ => RP (PKey (tag =? 7) true k)
         | Err e => rd_of_err e
         | Panic _ => RPanic
@@ -175,9 +398,44 @@ Definition read_packet (c : cfg) (P : params) (tag : N) (body : bytes) (short : 
     | Err e => rd_of_err e
     | Panic _ => RPanic
     end
-  else if tag =? 13 then
-    if short then RErr else RP (PUid body)
-  else if unmodelled_tag tag then RUnmod
+  else if tag =? 13 then fin complete (PUid body)
+  else if tag =? 1 then (if parse_enckey body then fin complete POther else RErr)
+  else if tag =? 3 then
+    (* SymmetricKeyEncrypted.parse symmetric_key_encrypted.go:30 *)
+    match body with
+    | v :: cph :: r =>
+        if negb (v =? 4) then RErr
+        else if cipher_block_size cph =? 0 then RErr              (* KeySize() == 0: the same ciphers *)
+        else match s2k_parse P complete r with
+             | S2Eof => REof
+             | S2Err => RErr
+             | S2Ok r2 => if 64 <=? lenN r2 then RErr else fin complete POther
+             end
+    | _ => RErr
+    end
+  else if tag =? 4 then (if parse_onepass body then fin complete POther else RErr)
+  else if tag =? 17 then (if complete && opaque_subpackets (length body) body then RP POther else RErr)
+  else if tag =? 8 then
+    (* Compressed.parse compressed.go:43 *)
+    match body with
+    | [] => RErr
+    | a :: r =>
+        if (a =? 1) || (a =? 3) then RStream 1                    (* flate.NewReader / bzip2.NewReader read nothing yet *)
+        else if a =? 2 then (if zlib_header_ok r then RUnmod else RErr)
+        else RErr
+    end
+  else if tag =? 9 then RStream 0
+  else if tag =? 18 then
+    match body with
+    | v :: _ => if v =? 1 then RStream 1 else RErr
+    | [] => RErr
+    end
+  else if tag =? 11 then
+    (* LiteralData.parse literal.go:26 *)
+    match body with
+    | _ :: n :: r => if n + 4 <=? lenN r then RStream (6 + n) else RErr
+    | _ => RErr
+    end
   else RSkip.                                                 (* UnknownPacketTypeError: Reader.Next continues *)
 
 (* the sequence of results of Reader.Next up to and including the first failure;
@@ -189,13 +447,16 @@ Fixpoint events_fuel (fuel : nat) (c : cfg) (P : params) (l : bytes) : list even
       match read_header l with
       | HEof => []
       | HErr => [EvErr]
-      | HUnmod => [EvUnmod]
-      | HPkt tag len rest =>
-          let short := lenN rest <? len in
-          let n := if short then length rest else N.to_nat len in
-          match read_packet c P tag (take n rest) short with
-          | RP p => EvP p :: events_fuel f c P (drop n rest)
-          | RSkip => events_fuel f c P (drop n rest)
+      | HPkt tag br rest =>
+          let '(body, complete, after) := read_body br rest in
+          match read_packet c P tag body complete with
+          | RP p => EvP p :: events_fuel f c P after
+          | RStream k =>
+              match skip_content br k rest with
+              | Some r' => EvP POther :: events_fuel f c P r'
+              | None => [EvErr]
+              end
+          | RSkip => events_fuel f c P after
           | REof => []
           | RErr => [EvErr]
           | RPanic => [EvPanic]
@@ -310,13 +571,14 @@ Definition verify_revocation (c : cfg) (P : params) (k : pubkey) (s : sigcore) :
 
 (* ---------- ReadEntity (keys.go:314-498) ---------- *)
 Record identity := mkid { id_name : bytes; id_self : sigcore; id_others : list sigcore }.
-Record subkey := mksub { sk_key : pubkey; sk_sig : sigcore }.
+(* sk_sig: Subkey.Sig (the binding signature that counts, or the revocation); sk_bind: Subkey.BindingSig *)
+Record subkey := mksub { sk_key : pubkey; sk_sig : sigcore; sk_bind : option sigcore }.
 Record entity := mkent { e_primary : pubkey; e_ids : list identity; e_subkeys : list subkey; e_revs : list sigcore }.
 
 Inductive mode : Type :=
 | MTop
 | MUid (name : bytes) (self : option sigcore) (others : list sigcore)
-| MSub (k : pubkey) (sg : option sigcore).
+| MSub (k : pubkey) (sg : option sigcore) (bd : option sigcore).
 
 Record est := mkest { st_ids : list identity; st_subs : list subkey; st_revs : list sigcore }.
 
@@ -333,8 +595,8 @@ Definition close_mode (st : est) (m : mode) : result est :=
   | MTop => Ok st
   | MUid name (Some s) others => Ok (mkest (put_identity (mkid name s others) (st_ids st)) (st_subs st) (st_revs st))
   | MUid _ None _ => Ok st
-  | MSub k (Some s) => Ok (mkest (st_ids st) (st_subs st ++ [mksub k s]) (st_revs st))
-  | MSub _ None => Err "subkey packet not followed by signature"
+  | MSub k (Some s) bd => Ok (mkest (st_ids st) (st_subs st ++ [mksub k s bd]) (st_revs st))
+  | MSub _ None _ => Err "subkey packet not followed by signature"
   end.
 
 Inductive next : Type := Cont (st : est) (m : mode) | Stop (st : est).
@@ -347,7 +609,8 @@ Definition top_step (st : est) (p : packet) : next :=
       if sc_type (s_core s) =? pgp_sigtype_key_revocation
       then Cont (mkest (st_ids st) (st_subs st) (st_revs st ++ [s_core s])) MTop
       else Cont st MTop
-  | PKey sub _ k => if sub then Cont st (MSub k None) else Stop st     (* Unread; break EachPacket *)
+  | PKey sub _ k => if sub then Cont st (MSub k None None) else Stop st     (* Unread; break EachPacket *)
+  | POther => Cont st MTop                                             (* default: we ignore unknown packets *)
   end.
 
 Definition is_cert_type (t : N) : bool := (t =? pgp_sigtype_positive_cert) || (t =? pgp_sigtype_generic_cert).
@@ -355,6 +618,13 @@ Definition is_cert_type (t : N) : bool := (t =? pgp_sigtype_positive_cert) || (t
 Definition is_self_cert (pid : N) (s : sigcore) : bool :=
   is_cert_type (sc_type s) &&
   match sc_issuer s with Some i => i =? pid | None => false end.
+
+(* addUserID :431 - the most recent self-signature; of two made in the same second the later one in the stream *)
+Definition should_replace_self (c : cfg) (existing : option sigcore) (new : sigcore) : bool :=
+  match existing with
+  | None => true
+  | Some e => if fix42 c then negb (sc_created new <? sc_created e) else true
+  end.
 
 (* shouldReplaceSubkeySig :484 *)
 Definition should_replace (existing : option sigcore) (new : sigcore) : bool :=
@@ -371,9 +641,9 @@ Definition step (c : cfg) (P : params) (primary : pubkey) (pid : N) (st : est) (
       let core := s_core s in
       if is_self_cert pid core then
         let* _ := verify_uid_sig c P primary name core in
-        Ok (Cont st (MUid name (Some core) others))
+        Ok (Cont st (MUid name (if should_replace_self c self core then Some core else self) others))
       else Ok (Cont st (MUid name self (others ++ [core])))
-  | MSub k sg, PSig s =>
+  | MSub k sg bd, PSig s =>
       (* addSubkey :442 *)
       let core := s_core s in
       let t := sc_type core in
@@ -381,9 +651,11 @@ Definition step (c : cfg) (P : params) (primary : pubkey) (pid : N) (st : est) (
       then Err "subkey signature with wrong type"
       else
         let* _ := verify_key_sig c P primary k s in
-        if t =? pgp_sigtype_subkey_revocation then Ok (Cont st (MSub k (Some core)))
-        else if should_replace sg core then Ok (Cont st (MSub k (Some core)))
-        else Ok (Cont st (MSub k sg))
+        if t =? pgp_sigtype_subkey_revocation then Ok (Cont st (MSub k (Some core) bd))
+        else
+          let bd' := if should_replace bd core then Some core else bd in
+          if should_replace sg core then Ok (Cont st (MSub k (Some core) bd'))
+          else Ok (Cont st (MSub k sg bd'))
   | _, _ =>
       (* not a signature: Unread, leave the helper, the main loop sees the packet *)
       let* st' := close_mode st m in
@@ -458,10 +730,15 @@ Definition identity_info (c : cfg) (primary : pubkey) (i : identity) : info :=
         (if fix38 c then [] else flat_map (fun s => describe_sig c s (pk_created primary)) (id_others i)))
        [].
 (* parsers.go:175 — the Created attribute is overwritten with the subkey's own creation time *)
+(* parsers.go:178 - the signature whose usage and lifetime are shown *)
+Definition sk_shown (c : cfg) (s : subkey) : sigcore :=
+  if fix41 c && (sc_type (sk_sig s) =? pgp_sigtype_subkey_revocation)
+  then match sk_bind s with Some b => b | None => sk_sig s end
+  else sk_sig s.
 Definition subkey_sig_attrs (c : cfg) (s : subkey) : list (bytes * bytes) :=
   map (fun nv => if fix39 c && bytes_eqb (fst nv) (bs "Created")
                  then (fst nv, fmt_date_utc (pk_created (sk_key s))) else nv)
-      (describe_sig c (sk_sig s) (pk_created (sk_key s))).
+      (describe_sig c (sk_shown c s) (pk_created (sk_key s))).
 Definition subkey_info (c : cfg) (H : bytes -> bytes) (s : subkey) : info :=
   Info (bs "GPG/PGP subkey")
        (describe_key H (sk_key s) ++ subkey_sig_attrs c s)
